@@ -367,6 +367,9 @@ func (n *simNode) Seed(ps ...peer.ID) {
 // pending[i].err first), or -1 after performing some other action itself
 // (e.g. cancelling a context).  Returns false if the operation deadlocked:
 // nothing pending and op not finished.
+// simOnIdle, when set, is asked once nothing is parked; it returns true if it let something go on.
+var simOnIdle func() bool
+
 func simDrive(op func(), pick func(step int, pending []*simCall) int, gate *simGate, maxSteps int) (ok bool, steps int) {
 	done := make(chan struct{})
 	go func() {
@@ -382,6 +385,9 @@ func simDrive(op func(), pick func(step int, pending []*simCall) int, gate *simG
 		default:
 		}
 		pending := gate.Pending()
+		if len(pending) == 0 && simOnIdle != nil && simOnIdle() {
+			continue // the driver itself was holding something back
+		}
 		if len(pending) == 0 {
 			// nothing parked: the operation is waiting for virtual time (a timeout)
 			// or is wedged.  Let virtual time advance once, then look again.
